@@ -45,6 +45,14 @@ def run_case(case, rec, cid):
                 rec.ev("CalQ", cid, fn=step["fn"], a=step["a"], b=step["b"], res=v, ok=True, cls="")
             else:
                 rec.ev("CalQ", cid, fn=step["fn"], a=step["a"], b=step["b"], res=[], ok=False, cls=type(v).__name__)
+        elif step["op"] == "Cli":    # a command-line invocation inside the same process: it selects (and leaves) a calendar
+            from harness.drivers import c19
+            g = {"dform": "cal-b", "tform": "hms-b", "zform": "Z", "sep": 44, "xd": 0, "neg": False, "y": 2004, "a": 2, "b": 28,
+                 "hh": 0, "mi": 0, "ss": 0, "ds": [], "zh": 0, "zm": 0}
+            c19.run_case({"kind": "point", "cal": step["opt"] or None, "envcal": step["env"] or None, "utc": False,
+                          "sys": {"tz": 0, "alt": 0, "daylight": 0, "isdst": 0}, "g": g, "offs": [{"d": 2}], "seed": 0}, rec, cid, begin=False)
+            st, v = outcome(lambda: [I(x) for x in QUERIES[step["fn"]](step["a"], step["b"])])
+            rec.ev("CalQ", cid, fn=step["fn"], a=step["a"], b=step["b"], res=v if st == "ok" else [], ok=st == "ok", cls="" if st == "ok" else type(v).__name__)
         else:   # an operation of another property's driver, executed under the mode of this history
             mod = importlib.import_module("harness.drivers." + step["drv"])
             rec.ev("SetMode", cid, sp=step["case"]["mode"])      # the inner driver switches to its case's spelling
@@ -117,7 +125,7 @@ def jobs(tier, seed):
     import tempfile, shutil
     scratch = tempfile.mkdtemp(prefix="isodt_gen_")
     try:
-        cfgs = ["Gen_C15.cfg"] if tier == "quick" else ["Gen_C15.cfg", "Gen_C15_deep.cfg"]
+        cfgs = ["Gen_C15.cfg", "Gen_C19.cfg"] if tier == "quick" else ["Gen_C15.cfg", "Gen_C15_deep.cfg", "Gen_C19.cfg", "Gen_C19_deep.cfg"]
         hists = []
         for cfg in cfgs:
             r = tlc.model_check("MC_C15.tla", cfg, scratch, workers=4)
